@@ -17,6 +17,7 @@ func init() {
 			"Not decided: behaviour of the bound functions, completeness of a table with respect to newer toolchains, generated-file freshness.",
 		Assumptions: []string{"go/types view of the installed standard library (export data) is the oracle", "go/constant arithmetic", "reflect.ValueOf / TypeOf / Elem behave as documented"},
 		Rules: []func(*Ctx){ruleImportTables, ruleImportTablesFloors, func(c *Ctx) {
+			ruleLoadBindsClassOrder(c, "T6o-loadbinds-class-order")
 			// loader side: the per-kind readers/places of imported variables in fast/import.go
 			ruleUniformity(c, "fast", []string{"import.go"}, "U-uniform")
 			ruleAccessorFiles(c, "fast", []string{"import.go"}, "A2-accessor")
@@ -51,7 +52,7 @@ func init() {
 			"M6 unmarshalFloat splits on '/' and divides numerator by denominator; T3 (shared with C31) every one of the marshalled literals present in the import tables decodes, with the checker's own reader, to exactly the constant it names. " +
 			"Not decided: that go/constant's ExactString and MakeFromLiteral are mutually inverse (trusted).",
 		Assumptions: []string{"go/constant ExactString/MakeFromLiteral are inverse on exact values", "fmt.Sprintf %s is verbatim"},
-		Rules:       []func(*Ctx){ruleMarshalTables, ruleUntypedLiteralsOnly},
+		Rules:       []func(*Ctx){ruleMarshalTables, ruleUntypedLiteralsOnly, func(c *Ctx) { ruleUnmarshalArgUnmodified(c, "M7u-unmarshal-arg-unmodified") }},
 		Mutants: []Mutant{
 			{Name: "lossy-string", File: "base/untyped/val.go", Old: `s = fmt.Sprintf("float:%s", val.ExactString())`, New: `s = fmt.Sprintf("float:%s", val.String())`, Canary: true},
 			{Name: "tag-kind-swapped", File: "base/untyped/val.go", Old: "case \"rune\":\n\t\tkind = Rune", New: "case \"rune\":\n\t\tkind = Int"},
